@@ -2,7 +2,9 @@ package main
 
 import (
 	"fmt"
+	"net/url"
 	"regexp"
+	"sort"
 	"strings"
 
 	"github.com/rhysd/actionlint"
@@ -15,9 +17,20 @@ import (
 // arguments, order) with the model's (operation `lintwf`).
 
 var lwKinds = map[string]bool{"syntax-check": true, "matrix": true, "credentials": true, "job-needs": true, "env-var": true,
-	"id": true, "glob": true, "permissions": true, "if-cond": true, "shell-name": true, "deprecated-commands": true, "events": true, "runner-label": true}
+	"id": true, "glob": true, "permissions": true, "if-cond": true, "shell-name": true, "deprecated-commands": true, "events": true, "runner-label": true, "action": true, "workflow-call": true}
 
 var lwTemplates = map[string][]pwTemplate{
+	"action": {
+		pwCompile("input-undefined", `input @q@ is not defined in action @q@. available inputs are @x@`),
+		pwCompile("input-missing", `missing input @q@ which is required by action @q@. all required inputs are @x@`),
+		pwCompile("action-format", `specifying action @q@ in invalid format because @s@. available formats are "{owner}/{repo}@A@{ref}" or "{owner}/{repo}/{path}@A@{ref}"`),
+		pwCompile("action-outdated", `the runner of @q@ action is too old to run on GitHub Actions. update the action's version to fix this issue`),
+		pwCompile("docker-uri-invalid", `URI for Docker container @q@ is invalid: @x@ (tag=@s@)`),
+		pwCompile("docker-tag-empty", `tag of Docker action should not be empty: @q@`),
+	},
+	"workflow-call": {
+		pwCompile("call-format", `reusable workflow call @q@ at "uses" is not following the format @x@`),
+	},
 	"runner-label": {
 		pwCompile("label-unknown", `label @q@ is unknown. available labels are @x@`),
 		pwCompile("label-conflict", `label @q@ conflicts with label @q@ defined at @p@. note: to run your job on each workers, use matrix`),
@@ -131,6 +144,38 @@ func lwCanonErr(e *actionlint.Error) string {
 	return head + "?" + hx(e.Message)
 }
 
+// lwBadURLs: the Docker URIs (tag stripped the way checkDockerAction strips it) that net/url rejects
+func lwBadURLs(root *yaml.Node) string {
+	bad := map[string]bool{}
+	var walk func(n *yaml.Node)
+	walk = func(n *yaml.Node) {
+		if n.Kind == yaml.ScalarNode && strings.HasPrefix(n.Value, "docker://") {
+			uri := n.Value
+			if idx := strings.IndexRune(uri[len("docker://"):], ':'); idx != -1 {
+				idx += len("docker://")
+				if idx < len(uri) {
+					uri = uri[:idx]
+				}
+			}
+			if _, err := url.Parse(uri); err != nil {
+				bad[uri] = true
+			}
+		}
+		if n.Kind != yaml.AliasNode {
+			for _, c := range n.Content {
+				walk(c)
+			}
+		}
+	}
+	walk(root)
+	var items []string
+	for u := range bad {
+		items = append(items, hx(u))
+	}
+	sort.Strings(items)
+	return "(" + strings.Join(items, ",") + ")"
+}
+
 // lwCase: protocol line and the canonical diagnostics of the modelled kinds
 func lwCase(src string) (line, impl string, ok bool) {
 	var root yaml.Node
@@ -140,7 +185,7 @@ func lwCase(src string) (line, impl string, ok bool) {
 	nums := map[string]bool{}
 	node := nodeSexp(&root, nums)
 	exNumbers(&root, nums)
-	line = "lintwf " + numsSexp(nums) + " " + node
+	line = "lintwf " + numsSexp(nums) + " " + lwBadURLs(&root) + " " + node
 	errs, err := lintSrc("w.yaml", src)
 	if err != nil {
 		return "", "", false
